@@ -2,6 +2,7 @@
 ID = 'C12'
 LEVEL = 'other'
 TARGETS = ['selfies/bond_constraints.py::get_preset_constraints', 'selfies/bond_constraints.py::get_semantic_constraints', 'selfies/bond_constraints.py::set_semantic_constraints', 'selfies/bond_constraints.py::get_bonding_capacity']
+ASSUMPTIONS = ['constraint-table values of type bool (True/False pass isinstance(value, int)) are not modelled; keys of the table passed to set_semantic_constraints are assumed to be str', 'lru_cache is modelled by a per-function memo flag (stale after a write of _current_constraints, clean after cache_clear()); the dict iteration order is abstract (ghost key vector enumerating exactly the present keys)']
 EXPLANATION = (
     "BOUNDED stand-in (not counted as proved) plus every deductive clause listed in coverage.clauses: enumerated "
     "histories of public API calls (constraint updates valid and invalid, caller-side mutation of every object the "
